@@ -32,19 +32,32 @@ func Copy(source, dest string) error {
 		}
 	}
 
-	out, err := os.Create(dest)
-	if err != nil {
-		return err
+	/* Write next to dest and rename into place: the name never shows half
+	 * a file, and whatever sits at dest - a symlink to somewhere else, for
+	 * one - is replaced, not written through. */
+	var out *os.File
+	var tmp string
+	for i := 0; ; i++ {
+		tmp = filepath.Join(filepath.Dir(dest), fmt.Sprintf(".%s.%d-%d.tmp", filepath.Base(dest), os.Getpid(), i))
+		out, err = os.OpenFile(tmp, os.O_WRONLY|os.O_CREATE|os.O_EXCL, 0666)
+		if err == nil {
+			break
+		}
+		if !os.IsExist(err) || i > 100 {
+			return err
+		}
 	}
-	defer out.Close()
 	_, err = io.Copy(out, in)
 	cerr := out.Close()
 	if err == nil {
 		err = cerr
 	}
+	if err == nil {
+		err = os.Rename(tmp, dest)
+	}
 	if err != nil {
 		/* don't leave half a file behind */
-		os.Remove(dest)
+		os.Remove(tmp)
 	}
 	return err
 }
